@@ -1,32 +1,602 @@
+// Harness for C14: runs /repo's link / anchor / bookmark / metadata code and the
+// whole Document.Write on a recording backend, and writes cases as Coq terms of
+// type Check.C14.case (input + what the implementation produced).
+//
+// Streams: corpus documents (corpus/C14/*.html) first, then a mix of
+//   - synthetic page data through the hooks VerifResolveLinks / VerifMakeBookmarkTree
+//     (structured + boundary: levels <= 0, empty pages, duplicate names across pages),
+//   - generated documents (forced pages; ids, links, headings, metadata, decorations,
+//     images, inline SVG) rendered with /repo's pipeline and written at a zoom.
 package main
 
 import (
+	"bytes"
 	"flag"
 	"fmt"
 	"os"
+	"path/filepath"
+	"sort"
+	"strings"
+	"time"
 
+	"verifharness/vlib"
 	"verifharness/vlib/render"
 
+	"github.com/benoitkugler/webrender/backend"
+	pr "github.com/benoitkugler/webrender/css/properties"
+	bo "github.com/benoitkugler/webrender/html/boxes"
 	"github.com/benoitkugler/webrender/html/document"
+	"github.com/benoitkugler/webrender/utils"
+	"golang.org/x/net/html"
 )
 
+// ------------------------------------------------------------------ fetcher
+
+func fetcher(url string) (utils.RemoteRessource, error) {
+	switch {
+	case strings.HasPrefix(strings.ToLower(url), "data:"):
+		return utils.DefaultUrlFetcher(url)
+	case strings.HasPrefix(url, "http://verif.test/f/"):
+		return utils.RemoteRessource{Content: bytes.NewReader([]byte("content of " + url)), MimeType: "text/plain", RedirectedUrl: url}, nil
+	}
+	return utils.RemoteRessource{}, fmt.Errorf("offline: %s", url)
+}
+
+// ------------------------------------------------------------------ synthetic streams
+
+func rpos(r *vlib.Rng) Fl {
+	switch r.Intn(4) {
+	case 0:
+		return Fl(r.Range(0, 800))
+	case 1:
+		return Fl(r.Range(0, 6400)) / 8
+	case 2:
+		return Fl(r.Float01() * 1000)
+	}
+	return Fl(r.Range(-50, 50))
+}
+
+func genResolve(r *vlib.Rng) vlib.Case {
+	names := []string{"a", "b", "c", "d", "e", "f", "long-name", "", "A", "a b"}
+	names = names[:r.Range(1, len(names))]
+	nPages := vlib.Pick(r, []int{0, 1, 1, 2, 3, 4, 6})
+	pages := make([]document.VerifPageData, nPages)
+	dup, dangling, internal := false, false, 0
+	defined := map[string]bool{}
+	for i := range pages {
+		perm := append([]string(nil), names...)
+		for j := len(perm) - 1; j > 0; j-- {
+			k := r.Intn(j + 1)
+			perm[j], perm[k] = perm[k], perm[j]
+		}
+		for _, n := range perm[:r.Range(0, len(perm))] {
+			if defined[n] {
+				dup = true
+			}
+			defined[n] = true
+			pages[i].Anchors = append(pages[i].Anchors, document.VerifAnchor{Name: n, X: rpos(r), Y: rpos(r)})
+		}
+	}
+	for i := range pages {
+		for j, m := 0, r.Range(0, 5); j < m; j++ {
+			l := document.Link{Rectangle: [4]Fl{rpos(r), rpos(r), rpos(r), rpos(r)}}
+			switch r.Intn(8) {
+			case 0, 1, 2, 3:
+				l.Type = "internal"
+				l.Target = vlib.Pick(r, []string{"a", "b", "c", "d", "e", "f", "long-name", "", "A", "a b", "zz"})
+				internal++
+				if !defined[l.Target] {
+					dangling = true
+				}
+			case 4, 5:
+				l.Type, l.Target = "external", vlib.Pick(r, []string{"http://x.test/", "a", "zz", ""})
+			case 6:
+				l.Type, l.Target = "attachment", vlib.Pick(r, []string{"http://x.test/f", "a", "zz"})
+			default:
+				l.Type, l.Target = vlib.Pick(r, []string{"", "Internal", "weird"}), vlib.Pick(r, []string{"a", "zz"})
+			}
+			pages[i].Links = append(pages[i].Links, l)
+		}
+	}
+	links, anchors := document.VerifResolveLinks(pages)
+	ol := mapS(links, func(l []document.Link) string { return mapS(l, cLink) })
+	oa := mapS(anchors, func(l []backend.Anchor) string {
+		return mapS(l, func(a backend.Anchor) string { return cAnchor(a.Name, a.X, a.Y) })
+	})
+	var tags []string
+	if dup {
+		tags = append(tags, "dup-across-pages")
+	}
+	if dangling {
+		tags = append(tags, "dangling")
+	}
+	return vlib.Case{Kind: "resolve", Coq: fmt.Sprintf("KResolve %s %s %s", mapS(pages, cPage), ol, oa),
+		Desc: map[string]interface{}{"pages": pages, "links": links, "anchors": anchors}, Tags: tags,
+		Nontrivial: nPages > 0 && internal > 0}
+}
+
+func genBookmarks(r *vlib.Rng) vlib.Case {
+	nPages := vlib.Pick(r, []int{1, 1, 2, 3, 5})
+	pages := make([]document.VerifPageData, nPages)
+	mode := r.Intn(10)
+	total, k := 0, 0
+	var levels []int
+	prev := 1
+	for i := range pages {
+		for j, m := 0, r.Range(0, 7); j < m; j++ {
+			var lvl int
+			switch {
+			case mode == 0: // boundary: any small integer, including <= 0
+				lvl = r.Range(-2, 4)
+			case mode == 1: // wide jumps
+				lvl = vlib.Pick(r, []int{1, 2, 9, 100, 1 << 20, 3})
+			case mode <= 4: // walk: small steps around the previous level
+				lvl = prev + r.Range(-2, 2)
+				if lvl < 1 {
+					lvl = 1
+				}
+			default:
+				lvl = r.Range(1, 6)
+			}
+			prev = lvl
+			k++
+			label := fmt.Sprintf("b%d", k)
+			if r.Chance(1, 12) {
+				label = "dup"
+			}
+			pages[i].Bookmarks = append(pages[i].Bookmarks, document.VerifBookmark{Level: lvl, Label: label, X: rpos(r), Y: rpos(r), Open: r.Bool()})
+			levels = append(levels, lvl)
+			total++
+		}
+	}
+	var root []backend.BookmarkNode
+	o := render.Guard(func() { root = document.VerifMakeBookmarkTree(pages) })
+	out := "BPanic"
+	tags := []string{}
+	if o.Status == "ok" {
+		out = "(BForest " + mapS(root, cNode) + ")"
+	} else {
+		tags = append(tags, "panic")
+	}
+	bad := false
+	for _, l := range levels {
+		if l < 1 {
+			bad = true
+		}
+	}
+	if bad {
+		tags = append(tags, "level<1")
+	}
+	in := mapS(pages, func(p document.VerifPageData) string { return mapS(p.Bookmarks, cBookmark) })
+	return vlib.Case{Kind: "bookmarks", Coq: fmt.Sprintf("KBookmarks %s %s", in, out),
+		Desc: map[string]interface{}{"levels": levels, "pages": nPages, "outcome": o, "outline": outlineDesc(root)}, Tags: tags,
+		Nontrivial: total >= 2}
+}
+
+// ------------------------------------------------------------------ documents
+
+// the box fields gatherLinksAndBookmarks reads, in pre-order
+func dumpBoxes(page *bo.PageBox) (string, int) {
+	var items []string
+	var walk func(b bo.Box)
+	walk = func(b bo.Box) {
+		f := b.Box()
+		anchor := string(f.Style.GetAnchor())
+		link := f.Style.GetLink()
+		ls := "None"
+		if !link.IsNone() {
+			ls = fmt.Sprintf("(Some (%s, %s))", cLtype(link.Name), cName(link.String))
+		}
+		level := 0
+		if lvl := f.Style.GetBookmarkLevel(); lvl.Tag != pr.None {
+			level = lvl.I
+		}
+		textline := bo.TextT.IsInstance(b) || bo.LineT.IsInstance(b)
+		if anchor != "" || !link.IsNone() || f.BookmarkLabel != "" {
+			items = append(items, fmt.Sprintf("(mkbox %s %s %s %s %s %s %s zero_pos zero_rect)", cName(anchor), ls, vlib.Bool(textline),
+				vlib.Bool(f.IsAttachment()), cName(f.BookmarkLabel), vlib.Z(level), vlib.Bool(f.Style.GetBookmarkState() == "open")))
+		}
+		for _, c := range b.AllChildren() {
+			walk(c)
+		}
+	}
+	walk(page)
+	return "[" + strings.Join(items, "; ") + "]", len(items)
+}
+
+type metaEl struct {
+	Kind, A, B string
+	Date       *int64
+}
+
+func attr(n *html.Node, key string) string {
+	for _, a := range n.Attr {
+		if a.Key == key {
+			return a.Val
+		}
+	}
+	return ""
+}
+
+const htmlWS = " \t\n\f\r"
+
+// independent reading of a W3C date (http://www.w3.org/TR/NOTE-datetime)
+func w3cDate(s string) *int64 {
+	s = strings.Trim(s, htmlWS)
+	for _, layout := range []string{"2006", "2006-01", "2006-01-02", "2006-01-02T15:04Z07:00", "2006-01-02T15:04:05Z07:00", "2006-01-02T15:04:05.999999999Z07:00"} {
+		if t, err := time.Parse(layout, s); err == nil {
+			if t.IsZero() {
+				return nil
+			}
+			u := t.Unix()
+			return &u
+		}
+	}
+	return nil
+}
+
+// the <title>, <meta>, <link rel=attachment> elements of the DOM, in document order
+func domMeta(src string) []metaEl {
+	root, err := html.ParseWithOptions(strings.NewReader(src), html.ParseOptionEnableScripting(false))
+	if err != nil {
+		return nil
+	}
+	var out []metaEl
+	var walk func(n *html.Node)
+	walk = func(n *html.Node) {
+		if n.Type == html.ElementNode {
+			switch n.Data {
+			case "title":
+				var t string
+				for c := n.FirstChild; c != nil; c = c.NextSibling {
+					if c.Type == html.TextNode {
+						t += c.Data
+					}
+				}
+				out = append(out, metaEl{Kind: "title", A: t})
+			case "meta":
+				content := attr(n, "content")
+				out = append(out, metaEl{Kind: "meta", A: attr(n, "name"), B: content, Date: w3cDate(content)})
+			case "link":
+				isAtt := false
+				for _, tok := range strings.FieldsFunc(attr(n, "rel"), func(r rune) bool { return strings.ContainsRune(htmlWS, r) }) {
+					if strings.EqualFold(tok, "attachment") {
+						isAtt = true
+					}
+				}
+				if isAtt {
+					out = append(out, metaEl{Kind: "attach", A: attr(n, "href"), B: attr(n, "title")})
+				}
+			}
+		}
+		for c := n.FirstChild; c != nil; c = c.NextSibling {
+			walk(c)
+		}
+	}
+	walk(root)
+	return out
+}
+
+func cMetaEl(e metaEl) string {
+	switch e.Kind {
+	case "title":
+		return fmt.Sprintf("(MTitle %s)", cName(e.A))
+	case "meta":
+		d := "None"
+		if e.Date != nil {
+			d = fmt.Sprintf("(Some %s%%Z)", vlib.Z(int(*e.Date)))
+		}
+		return fmt.Sprintf("(MMeta %s %s %s)", cName(e.A), cName(e.B), d)
+	}
+	return fmt.Sprintf("(MAttach %s %s)", cName(e.A), cName(e.B))
+}
+
+func cTimeOpt(t time.Time) string {
+	if t.IsZero() {
+		return "None"
+	}
+	return fmt.Sprintf("(Some %s%%Z)", vlib.Z(int(t.Unix())))
+}
+
+func first(l []string) string {
+	if len(l) == 0 {
+		return ""
+	}
+	return l[0]
+}
+
+type docInput struct {
+	Name  string
+	HTML  string
+	Gen   *genDoc
+	Zoom  Fl
+	Fonts string
+}
+
+var zooms = []Fl{1, 1, 0.5, 2, 2, 0.25, 1.5}
+
+// runDocument renders one document and returns its cases.
+func runDocument(in docInput) (cases []vlib.Case, status string) {
+	var (
+		doc  *document.Document
+		rec  *Rec
+		tags []string
+	)
+	if in.Gen != nil {
+		for t := range in.Gen.Tags {
+			tags = append(tags, t)
+		}
+		sort.Strings(tags)
+	}
+	tags = append(tags, fmt.Sprintf("zoom=%v", in.Zoom))
+	descBase := func(extra map[string]interface{}) map[string]interface{} {
+		m := map[string]interface{}{"doc": in.Name, "html": in.HTML, "zoom": in.Zoom}
+		for k, v := range extra {
+			m[k] = v
+		}
+		return m
+	}
+	o := render.GuardTimeout(20*time.Second, func() {
+		h, err := render.ParseHTML(in.HTML, true, fetcher)
+		if err != nil {
+			panic(err)
+		}
+		d := document.Render(h, nil, false, render.NewFonts(in.Fonts))
+		doc = &d
+	})
+	if o.Status != "ok" {
+		// layout crashes / hangs belong to C01; a crash inside html/document/document.go is ours
+		if strings.HasPrefix(o.Site, "html/document/document.go") {
+			cases = append(cases, vlib.Case{Kind: "render-panic", Coq: "KTrace 1 [] []", Tags: append(tags, "panic"),
+				Desc: descBase(map[string]interface{}{"outcome": o}), Nontrivial: true})
+		}
+		return cases, "render-" + o.Status
+	}
+	vp := document.VerifPages(doc)
+	if !finitePagesData(vp) {
+		// a non finite position cannot be written as a rational: the trace monitor reports it
+		tags = append(tags, "nonfinite-geometry")
+	}
+
+	// KGather: boxes of every page against what newPage gathered
+	{
+		var bs []string
+		nb := 0
+		for _, p := range doc.Pages {
+			s, n := dumpBoxes(document.VerifPageBox(p))
+			bs = append(bs, s)
+			nb += n
+		}
+		if finitePagesData(vp) {
+			cases = append(cases, vlib.Case{Kind: "gather", Coq: fmt.Sprintf("KGather %s %s", vlib.List(bs), mapS(vp, cPage)),
+				Desc: descBase(map[string]interface{}{"gathered": vp}), Tags: tags, Nontrivial: nb > 0})
+		}
+	}
+
+	// write
+	o = render.GuardTimeout(20*time.Second, func() {
+		rec = NewRec()
+		doc.Write(rec, in.Zoom, nil)
+	})
+	if o.Status != "ok" {
+		if strings.HasPrefix(o.Site, "html/document/document.go") || strings.HasPrefix(o.Site, "text/draw") || strings.HasPrefix(o.Site, "backend/") {
+			cases = append(cases, vlib.Case{Kind: "write-panic", Coq: fmt.Sprintf("KTrace %d [] []", len(doc.Pages)+1), Tags: append(tags, "panic"),
+				Desc: descBase(map[string]interface{}{"outcome": o}), Nontrivial: true})
+		}
+		return cases, "write-" + o.Status
+	}
+
+	// KTrace (+ one KTraceRule per rule the harness side shadow saw violated)
+	{
+		calls := make([]string, len(rec.Ev))
+		for i, e := range rec.Ev {
+			calls[i] = e.Coq()
+		}
+		trace := vlib.List(calls)
+		byRule := map[int][]string{}
+		var rules []int
+		for _, v := range rec.shadow() {
+			if byRule[v.Rule] == nil {
+				rules = append(rules, v.Rule)
+			}
+			byRule[v.Rule] = append(byRule[v.Rule], fmt.Sprintf("call %d %s: %s [%s]", v.I, rec.Ev[v.I].String(), v.What, v.Site))
+		}
+		sort.Ints(rules)
+		sep := make([]string, len(rules))
+		for i, r := range rules {
+			sep[i] = fmt.Sprint(r)
+		}
+		cases = append(cases, vlib.Case{Kind: "trace", Coq: fmt.Sprintf("KTrace %d %s %s", len(doc.Pages), vlib.List(sep), trace),
+			Desc: descBase(map[string]interface{}{"calls": len(rec.Ev), "pages": len(doc.Pages), "rules_reported_separately": rules}),
+			Tags: tags, Nontrivial: len(rec.Ev) > 20, Key: in.Name + "/trace"})
+		for _, r := range rules {
+			d := byRule[r]
+			if len(d) > 12 {
+				d = d[:12]
+			}
+			cases = append(cases, vlib.Case{Kind: "trace-rule", Coq: fmt.Sprintf("KTraceRule %d %s", r, trace),
+				Desc: descBase(map[string]interface{}{"rule": r, "harness_side_diagnosis": d}),
+				Tags: append(append([]string(nil), tags...), rec.shadowTags(r)...), Nontrivial: true, Key: fmt.Sprintf("%s/trace-rule-%d", in.Name, r)})
+		}
+	}
+
+	// KDoc
+	if finitePagesData(vp) && recFinite(rec) && rec.GotAnch && rec.GotBk && len(rec.Pages) == len(doc.Pages) {
+		var geoms, rps []string
+		for i, p := range doc.Pages {
+			geoms = append(geoms, fmt.Sprintf("(mkgeom %s %s %s %s %s %s)", vlib.Q32(p.Width), vlib.Q32(p.Height),
+				vlib.Q32(Fl(p.Bleed.Left)), vlib.Q32(Fl(p.Bleed.Top)), vlib.Q32(Fl(p.Bleed.Right)), vlib.Q32(Fl(p.Bleed.Bottom))))
+			var anchors []backend.Anchor
+			if i < len(rec.Anchors) {
+				anchors = rec.Anchors[i]
+			}
+			boxes := make([]string, len(rec.Boxes[i]))
+			for j, b := range rec.Boxes[i] {
+				boxes[j] = cRect(b.R)
+			}
+			rps = append(rps, fmt.Sprintf("(mkrpage %s %s %s %s)", cRect(rec.PageArgs[i]), mapS(rec.Links[i], cRecLink),
+				mapS(anchors, func(a backend.Anchor) string { return cAnchor(a.Name, a.X, a.Y) }), vlib.List(boxes)))
+		}
+		nl := 0
+		for _, l := range rec.Links {
+			nl += len(l)
+		}
+		cases = append(cases, vlib.Case{Kind: "doc", Coq: fmt.Sprintf("KDoc %s %s %s %s %s", vlib.Q32(in.Zoom), mapS(vp, cPage), vlib.List(geoms), vlib.List(rps), mapS(rec.Bookmarks, cNode)),
+			Desc: descBase(map[string]interface{}{"gathered": vp, "links": rec.Links, "anchors": rec.Anchors, "outline": outlineDesc(rec.Bookmarks), "addpage": rec.PageArgs}),
+			Tags: tags, Nontrivial: nl+len(rec.Bookmarks) > 0})
+	}
+
+	// KMeta
+	{
+		els := domMeta(in.HTML)
+		atts := make([]string, len(doc.Metadata.Attachments))
+		for i, a := range doc.Metadata.Attachments {
+			atts[i] = fmt.Sprintf("(%s, %s)", cName(a.URL), cName(a.Title))
+		}
+		out := fmt.Sprintf("(mkmeta %s %s %s %s %s %s %s %s)", cName(first(rec.Meta["title"])), cName(first(rec.Meta["description"])),
+			cName(first(rec.Meta["generator"])), mapS(rec.Meta["authors"], cName), mapS(rec.Meta["keywords"], cName),
+			cTimeOpt(rec.Created), cTimeOpt(rec.Modified), vlib.List(atts))
+		cases = append(cases, vlib.Case{Kind: "meta", Coq: fmt.Sprintf("KMeta %s %s", mapS(els, cMetaEl), out),
+			Desc: descBase(map[string]interface{}{"elements": els, "received": rec.Meta, "created": rec.Created, "modified": rec.Modified, "attachments": doc.Metadata.Attachments}),
+			Tags: tags, Nontrivial: len(els) > 0})
+	}
+
+	// KExpect
+	if g := in.Gen; g != nil && g.Exact && rec.GotAnch {
+		if len(g.Pages) != len(doc.Pages) {
+			status = "expect-skipped-pagecount"
+		} else {
+			gen := mapS(g.Pages, func(items []gItem) string {
+				return mapS(items, func(it gItem) string {
+					switch it.Kind {
+					case "id":
+						return fmt.Sprintf("(GId %s)", cName(it.Name))
+					case "link":
+						return fmt.Sprintf("(GLink %s %s)", cLtype(it.LType), cName(it.Name))
+					}
+					return fmt.Sprintf("(GHead %s %s)", vlib.Z(it.Level), cName(it.Name))
+				})
+			})
+			anch := mapS(rec.Anchors, func(l []backend.Anchor) string {
+				return mapS(l, func(a backend.Anchor) string { return cName(a.Name) })
+			})
+			lks := mapS(rec.Links, func(l []RecLink) string {
+				return mapS(l, func(x RecLink) string {
+					return fmt.Sprintf("(mklink %s %s zero_rect)", cLtype(x.Kind), cName(x.Target))
+				})
+			})
+			cases = append(cases, vlib.Case{Kind: "expect", Coq: fmt.Sprintf("KExpect %s %s %s %s", gen, anch, lks, mapS(rec.Bookmarks, cNodeNames)),
+				Desc: descBase(map[string]interface{}{"generated": g.Pages, "links": rec.Links, "anchors": rec.Anchors, "outline": outlineDesc(rec.Bookmarks)}),
+				Tags: tags, Nontrivial: true})
+		}
+	}
+	if status == "" {
+		status = "ok"
+	}
+	return cases, status
+}
+
+func cNodeNames(n backend.BookmarkNode) string {
+	return fmt.Sprintf("(Node (mkentry 0 %s %s zero_pos true) %s)", cName(n.Label), vlib.Z(n.PageIndex), mapS(n.Children, cNodeNames))
+}
+
+func recFinite(rec *Rec) bool {
+	for _, a := range rec.PageArgs {
+		if !vlib.Finite32(a[:]...) {
+			return false
+		}
+	}
+	for _, l := range rec.Links {
+		for _, x := range l {
+			if !vlib.Finite32(x.R[:]...) {
+				return false
+			}
+		}
+	}
+	for _, l := range rec.Anchors {
+		for _, a := range l {
+			if !vlib.Finite32(a.X, a.Y) {
+				return false
+			}
+		}
+	}
+	for _, l := range rec.Boxes {
+		for _, b := range l {
+			if !vlib.Finite32(b.R[:]...) {
+				return false
+			}
+		}
+	}
+	ok := true
+	var walk func(l []backend.BookmarkNode)
+	walk = func(l []backend.BookmarkNode) {
+		for _, n := range l {
+			if !vlib.Finite32(n.X, n.Y) {
+				ok = false
+			}
+			walk(n.Children)
+		}
+	}
+	walk(rec.Bookmarks)
+	return ok
+}
+
 func main() {
+	out := flag.String("out", "cases.jsonl", "output file")
+	n := flag.Int("n", 1500, "number of cases")
 	probe := flag.String("probe", "", "html file to render and dump")
 	flag.Parse()
 	if *probe != "" {
 		b, _ := os.ReadFile(*probe)
-		d, err := render.Render(string(b), nil, false, false, render.NewPango())
-		if err != nil {
-			panic(err)
+		cs, st := runDocument(docInput{Name: *probe, HTML: string(b), Zoom: 1, Fonts: "pango"})
+		fmt.Println("status", st)
+		for _, c := range cs {
+			fmt.Println(c.Kind, c.Tags)
+			fmt.Println(c.Coq)
 		}
-		for i, p := range document.VerifPages(d) {
-			fmt.Println("page", i, p)
-		}
-		rec := NewRec()
-		d.Write(rec, 1, nil)
-		for _, e := range rec.Ev {
-			fmt.Println(e.String(), "   ", e.Coq())
-		}
-		fmt.Println(rec.Anchors, rec.Bookmarks, rec.Meta, rec.Links)
+		return
 	}
+	rng := vlib.NewRng(vlib.Seed())
+	w := vlib.NewWriter(*out)
+	defer w.Close()
+	stats := map[string]int{}
+
+	// corpus first
+	files, _ := filepath.Glob("/verif/corpus/C14/*.html")
+	sort.Strings(files)
+	for _, f := range files {
+		b, err := os.ReadFile(f)
+		if err != nil {
+			continue
+		}
+		for _, z := range []Fl{1, 2} {
+			cs, st := runDocument(docInput{Name: "corpus/" + filepath.Base(f), HTML: string(b), Zoom: z, Fonts: "pango"})
+			stats[st]++
+			for _, c := range cs {
+				c.Tags = append(c.Tags, "corpus")
+				w.Add(c)
+			}
+		}
+	}
+
+	nd := 0
+	for w.N() < *n {
+		r := rng.Fork()
+		switch k := r.Intn(10); {
+		case k <= 2:
+			w.Add(genResolve(r))
+		case k <= 5:
+			w.Add(genBookmarks(r))
+		default:
+			g := genDocument(r)
+			nd++
+			fonts := "pango"
+			cs, st := runDocument(docInput{Name: fmt.Sprintf("gen-%d", nd), HTML: g.HTML, Gen: &g, Zoom: vlib.Pick(r, zooms), Fonts: fonts})
+			stats[st]++
+			for _, c := range cs {
+				w.Add(c)
+			}
+		}
+	}
+	fmt.Fprintf(os.Stderr, "c14: %d cases, %d generated documents, outcomes %v\n", w.N(), nd, stats)
 }
